@@ -50,7 +50,7 @@ def completeFrom (spec : List Int → List Score) (V : Nat) (eos : Option Int) :
     Nat → List Int → List (List Int)
   | 0, pre => [pre]
   | T + 1, pre =>
-    (List.range V).flatMap fun v =>
+    (List.range V).flatMap fun (v : Nat) =>
       if (tokScore (spec pre) (v : Int)).isNone then []
       else if eos = some (v : Int) then [pre ++ [(v : Int)]]
       else completeFrom spec V eos T (pre ++ [(v : Int)])
